@@ -4,9 +4,11 @@
      ProofsVal   which description a successful [perform] binds the target to
      ProofsSpec  model refines specification; noclobber; commands; oracle soundness
      ProofsProgress  an accepted list is performed when nothing constrains allocation
-     ProofsScript  nested compound commands and functions *)
+     ProofsOwn   descriptors the shell opens for itself: scripts (move_fd_internal), pipes
+     ProofsPipe  the parent's side of a pipeline
+     ProofsScript  nested compound commands, functions, the . built-in, command substitution *)
 From Yv Require Export Common.Base C09.Kernel C09.Model C09.Spec
-  C09.ProofsTab C09.ProofsList C09.ProofsVal C09.ProofsSpec C09.ProofsProgress C09.ProofsScript C09.Examples.
+  C09.ProofsTab C09.ProofsList C09.ProofsVal C09.ProofsSpec C09.ProofsProgress C09.ProofsOwn C09.ProofsPipe C09.ProofsScript C09.Examples.
 
 Local Open Scope N_scope.
 
@@ -52,4 +54,47 @@ Proof.
   exists false, limit_witness, [mkRedir 15 (BDup FdIn DClose)].
   eexists. eexists. eexists. split; [|split; [vm_compute; reflexivity|vm_compute; discriminate]].
   cbn. repeat split; intros k' H; cbn in H; intuition lia.
+Qed.
+
+(* statements without [wf] *)
+Lemma move_fd_internal_lemma s from e s' res :
+  sorted (k_tab s) -> below_limit (k_lim s) (k_tab s) ->
+  lookup (k_tab s) from = Some e -> move_fd_internal s from = (s', res) ->
+  k_lim s' = k_lim s /\
+  match res with
+  | Ok fd =>
+      if N.leb 10 from then fd = from /\ k_tab s' = k_tab s
+      else 10 <= fd /\ lookup (k_tab s) fd = None
+           /\ k_tab s' = tdel (tset (k_tab s) fd (mkEnt (e_ofd e) true)) from
+  | Err _ => from < 10 /\ k_tab s' = tdel (k_tab s) from
+  end.
+Proof.
+  intros Hs Hb Hf Hm. destruct (move_fd_internal_tab _ _ _ _ _ (conj Hs Hb) Hf Hm) as [_ H]. exact H.
+Qed.
+
+Lemma open_internal_lemma s p s' r :
+  sorted (k_tab s) -> below_limit (k_lim s) (k_tab s) ->
+  open_internal s p = (s', r) ->
+  k_lim s' = k_lim s /\
+  match r with
+  | None => k_tab s' = k_tab s
+  | Some fd => 10 <= fd /\ lookup (k_tab s) fd = None
+               /\ exists id, k_tab s' = tset (k_tab s) fd (mkEnt id true)
+  end.
+Proof.
+  intros Hs Hb Ho. destruct (open_internal_tab _ _ _ _ (conj Hs Hb) Ho) as [_ H]. exact H.
+Qed.
+
+Lemma pipe_lemma s s' res :
+  sorted (k_tab s) -> below_limit (k_lim s) (k_tab s) ->
+  k_pipe s = (s', res) ->
+  k_lim s' = k_lim s /\
+  match res with
+  | Ok (r, w) =>
+      r <> w /\ lookup (k_tab s) r = None /\ lookup (k_tab s) w = None
+      /\ exists e1 e2, k_tab s' = tset (tset (k_tab s) r e1) w e2
+  | Err _ => k_tab s' = k_tab s
+  end.
+Proof.
+  intros Hs Hb Hp. destruct (k_pipe_tab _ _ _ (conj Hs Hb) Hp) as [_ H]. exact H.
 Qed.
